@@ -212,6 +212,54 @@ fn vec_faults(call: &VecCall, rng: &mut Rng) -> Vec<(String, VecCall)> {
     out
 }
 
+/// Shape shrinking for C04: the smallest (height, query set) on which a fault of the same kind is
+/// still accepted (or the honest decommitment still rejected). Returns the shrunk call and fault name.
+fn shrink_vec(seed: u64, height: u32, n_friendly: u64, queries: &[u64], kind: Option<&str>) -> Option<(VecCall, String, u32, Vec<u64>)> {
+    for h in 0..=height {
+        let n = 1u64 << h;
+        let mut shapes: Vec<Vec<u64>> = vec![vec![0], vec![n - 1]];
+        if n >= 2 {
+            shapes.push(vec![0, 1]);
+            shapes.push(vec![0, n - 1]);
+            shapes.push(vec![n / 2 - 1, n / 2]);
+        }
+        if n >= 4 {
+            shapes.push(vec![1, 2]);
+            shapes.push(vec![1, 2, n - 1]);
+        }
+        let own: Vec<u64> = queries.iter().cloned().filter(|q| *q < n).collect();
+        if !own.is_empty() {
+            shapes.push(own);
+        }
+        // friendly boundary relative to the (smaller) tree as well as the original one
+        let nfs: Vec<u64> = if n_friendly > height as u64 + 1 { vec![n_friendly] } else { vec![n_friendly.min(h as u64 + 1), n_friendly] };
+        for nf in nfs {
+            for q in &shapes {
+                let mut rng = Rng::new(seed ^ (h as u64) << 8 ^ q.len() as u64);
+                let call = honest_vec_call(&mut rng, h, nf, q);
+                match kind {
+                    None => {
+                        if !call.run().is_accept() {
+                            return Some((call, "none".into(), h, q.clone()));
+                        }
+                    }
+                    Some(k) => {
+                        if !call.run().is_accept() {
+                            continue;
+                        }
+                        for (name, f) in vec_faults(&call, &mut rng) {
+                            if fault_kind(&name) == k && f.run().is_accept() {
+                                return Some((f, name, h, q.clone()));
+                            }
+                        }
+                    }
+                }
+            }
+        }
+    }
+    None
+}
+
 fn fault_kind(name: &str) -> String {
     name.split('[').next().unwrap_or(name).to_string()
 }
@@ -237,8 +285,18 @@ pub fn c04(ctx: &mut Ctx) {
         ctx.stats.state(format!("h{height}|f{}|q{}|none|{}", n_friendly.min(height as u64 + 2), queries.len().min(8), o.class()));
         if !o.is_accept() {
             let class = format!("C04|honest-rejected|{}", o.class());
-            let rep = replay_envelope("C04", scenario, &ctx.variant, json!({"call": "vector_decommit", "args": call.to_json(), "expect": "ok", "expected_outcome": o.describe()}));
-            ctx.violation(&class, &format!("honest decommitment rejected: height {height}, friendly {n_friendly}, queries {queries:?}: {}", o.describe()), rep);
+            if ctx.seen_class(&class) {
+                ctx.violation(&class, "", Value::Null);
+                continue;
+            }
+            // minimise the shape before reporting
+            let (c2, h2, q2) = match shrink_vec(ctx.seed ^ k, height, n_friendly, &queries, None) {
+                Some((c, _, h, q)) => (c, h, q),
+                None => (call.clone(), height, queries.clone()),
+            };
+            let o2 = c2.run();
+            let rep = replay_envelope("C04", scenario, &ctx.variant, json!({"call": "vector_decommit", "args": c2.to_json(), "expect": "ok", "expected_outcome": o2.describe(), "found_at": {"height": height, "n_friendly": n_friendly, "queries": queries}}));
+            ctx.violation(&class, &format!("honest decommitment rejected: height {h2}, friendly {}, queries {q2:?}: {} (minimised from height {height}, {} queries)", c2.n_friendly, o2.describe(), queries.len()), rep);
             continue;
         }
         if ctx.stats.samples.len() < 3 {
@@ -252,8 +310,14 @@ pub fn c04(ctx: &mut Ctx) {
             ctx.stats.state(format!("h{height}|f{}|q{}|{}|{}", n_friendly.min(height as u64 + 2), queries.len().min(8), kind, o.class()));
             if o.is_accept() {
                 let class = format!("C04|fault-accepted|{kind}");
-                let rep = replay_envelope("C04", scenario, &ctx.variant, json!({"call": "vector_decommit", "args": faulted.to_json(), "expect": "not_ok", "fault": name, "expected_outcome": o.describe()}));
-                ctx.violation(&class, &format!("fault {name} accepted: height {height}, friendly {n_friendly}, queries {queries:?}"), rep);
+                if ctx.seen_class(&class) {
+                    ctx.violation(&class, "", Value::Null);
+                    continue;
+                }
+                let (f2, name2, h2, q2) = shrink_vec(ctx.seed ^ k, height, n_friendly, &queries, Some(&kind)).unwrap_or((faulted.clone(), name.clone(), height, queries.clone()));
+                let o2 = f2.run();
+                let rep = replay_envelope("C04", scenario, &ctx.variant, json!({"call": "vector_decommit", "args": f2.to_json(), "expect": "not_ok", "fault": name2, "expected_outcome": o2.describe(), "found_at": {"height": height, "n_friendly": n_friendly, "queries": queries, "fault": name}}));
+                ctx.violation(&class, &format!("fault {name2} accepted: height {h2}, friendly {}, queries {q2:?} (minimised from height {height}, {} queries)", f2.n_friendly, queries.len()), rep);
             }
         }
     }
